@@ -24,18 +24,21 @@ def run(ctx):
     ntab = 2 if ctx.quick else 10
     for k in range(ntab):
         g = dom.gas_params(rng)
+        while abs(g["n2"] - g["co2"]) < 0.01 or abs(g["n2"] - g["h2s"]) < 0.01:    # a composition whose components cannot be confused unnoticed
+            g = dom.gas_params(rng)
         pmax = 1500.0 if ctx.quick else float(rng.choice([3000.0, 8000.0, 14000.0]))
         vals = {"N2": g["n2"], "H2S": g["h2s"], "CO2": g["co2"], "Gas Specific Gravity": g["sg"],
                 "Reservoir Temperature (deg F)": g["T"]}
         with warnings.catch_warnings():
             warnings.simplefilter("ignore")
-            tb = build_pvt_gas(vals, g["dry"], pmax)
+            vals_arg, vals_how = dom.gas_values_form(vals, k + 1)    # what the keys say decides, not the order they were inserted in
+            tb = build_pvt_gas(vals_arg, g["dry"], pmax)
         P = np.asarray(tb["pressure"], float)
         mu = np.asarray(tb["viscosity"], float)
         z = np.asarray(tb["z-factor"], float)
         m_tab = np.asarray(tb["pseudopressure"], float)
         m_sa = np.asarray(pseudopressure(P, mu, z), float)
-        inp = dict(gas_values=vals, dryness=g["dry"], maximum_pressure=pmax)
+        inp = dict(gas_values=vals, gas_values_given_as=vals_how, dryness=g["dry"], maximum_pressure=pmax)
         ev += 2
         if not np.allclose(m_tab, m_sa, rtol=1e-12, atol=1e-9):
             bad("builder column and stand-alone table transform disagree", inp, float(np.abs(m_tab - m_sa).max()))
